@@ -185,139 +185,183 @@ static int odd_char(vf_rng *r, const format *f)
 }
 static void gen_ws(vf_rng *r, bytes *b)
 {
-	static const char *const ws[] = { "", "", "", " ", " ", "  ", "\t", "\n", "\r\n", " \n ", "\n\n", "\v", "\f" };
+	/* between elements */
+	static const char *const ws[] = { "", " ", " ", "\n", "\n", "\n ", "\t", "\r\n", " \n ", "\n\n", "  " };
 	const char *s = ws[vf_below(r, sizeof(ws) / sizeof(*ws))];
+	if (vf_chance(r, 1, 40)) s = vf_chance(r, 1, 2) ? "\v" : "\f";
 	b_add(b, s, strlen(s));
 }
-static void gen_name(vf_rng *r, bytes *b, const format *f, int *longs)
+static void gen_iws(vf_rng *r, bytes *b)
 {
+	/* inside an element */
+	static const char *const ws[] = { "", "", " ", " ", "  ", "\t" };
+	const char *s = ws[vf_below(r, sizeof(ws) / sizeof(*ws))];
+	if (vf_chance(r, 1, 40)) s = "\n";
+	b_add(b, s, strlen(s));
+}
+static int is_delim(const format *f, int c)
+{
+	const uint8_t *p = (const uint8_t *) &f->pf;
+	for (size_t i = 0; i < sizeof(f->pf); i++) if (p[i] == c) return 1;
+	return c == '.';
+}
+/* name the flag set admits (mostly) */
+static void gen_name(vf_rng *r, bytes *b, const format *f, unsigned flags, int *longs)
+{
+	static const char special[] = "_-+/:,@%&*~^";
 	uint32_t sel = vf_below(r, 100);
-	if (sel < 60) {
+	size_t n, i;
+	if (sel < 45) {
 		const char *s = vocab[vf_below(r, NVOCAB)];
+		if (!(flags & 0x2) && isdigit((uint8_t) s[1])) s = "nn";
 		b_add(b, s, strlen(s));
-	} else if (sel < 66) {
+		return;
+	}
+	if (sel < 50) {
 		/* empty name */
-	} else if (sel < 69 && *longs < 2) {
-		size_t n = long_len(r);
+		if ((flags & 0x10) || vf_chance(r, 1, 6)) return;
+		b_put(b, 'e');
+		return;
+	}
+	if (sel < 52 && *longs < 2) {
+		n = long_len(r);
 		++*longs;
-		int c = plain_char(r);
-		for (size_t i = 0; i < n; i++) b_put(b, (i % 61) ? c : plain_char(r));
-	} else {
-		int n = vf_range(r, 1, 12);
-		for (int i = 0; i < n; i++) b_put(b, vf_chance(r, 1, 7) ? odd_char(r, f) : plain_char(r));
+	}
+	else if (sel < 62) {
+		/* anything */
+		n = (size_t) vf_range(r, 1, 12);
+		for (i = 0; i < n; i++) b_put(b, vf_chance(r, 1, 4) ? odd_char(r, f) : plain_char(r));
+		return;
+	}
+	else n = (size_t) vf_range(r, 1, 10);
+	for (i = 0; i < n; i++) {
+		int c;
+		switch (vf_below(r, 10)) {
+		case 0: c = (flags & (i ? 0x2 : 0x1)) ? '0' + (int) vf_below(r, 10) : 'd'; break;
+		case 1: c = (flags & 0x4) ? special[vf_below(r, sizeof(special) - 1)] : 's'; break;
+		case 2: c = ((flags & 0x8) && i && i + 1 < n && n < 200) ? ' ' : 'w'; break;
+		case 3: c = ((flags & 0x20) && vf_chance(r, 1, 3)) ? 0x80 + (int) vf_below(r, 128) : 'b'; break;
+		default: c = 'a' + (int) vf_below(r, 26);
+		}
+		if (is_delim(f, c)) c = 'x';
+		b_put(b, c);
 	}
 }
 static void gen_value(vf_rng *r, bytes *b, const format *f, int *longs)
 {
 	uint32_t sel = vf_below(r, 100);
-	int q = 0;
+	int q = 0, odd = vf_chance(r, 1, 8);
+	size_t n, i;
 	if (vf_chance(r, 1, 4)) {
 		q = f->pf.esc[vf_below(r, 3)];
-		if (!q && vf_chance(r, 1, 4)) q = '"';
+		if (!q && vf_chance(r, 1, 8)) q = '"';
 	}
 	if (q) b_put(b, q);
-	if (sel < 8) {
-		/* empty */
-	} else if (sel < 12 && *longs < 2) {
-		size_t n = long_len(r);
-		++*longs;
-		for (size_t i = 0; i < n; i++) b_put(b, (i % 37 == 36) ? ' ' : plain_char(r));
-	} else {
-		int n = vf_range(r, 1, 24);
-		for (int i = 0; i < n; i++) {
-			if (q && vf_chance(r, 1, 10)) { b_put(b, '\\'); b_put(b, q); continue; }
-			if (vf_chance(r, 1, 8)) b_put(b, ' ');
-			else b_put(b, vf_chance(r, 1, 12) ? odd_char(r, f) : plain_char(r));
-		}
+	if (sel < 8) n = 0;
+	else if (sel < 10 && *longs < 2) { n = long_len(r); ++*longs; }
+	else n = (size_t) vf_range(r, 1, 24);
+	for (i = 0; i < n; i++) {
+		int c;
+		if (q && vf_chance(r, 1, 12)) { b_put(b, '\\'); b_put(b, q); continue; }
+		if (i && i + 1 < n && vf_chance(r, 1, 8)) c = ' ';
+		else if (odd && vf_chance(r, 1, 6)) c = odd_char(r, f);
+		else if (q && vf_chance(r, 1, 6)) { const uint8_t *p = (const uint8_t *) &f->pf; c = p[vf_below(r, sizeof(f->pf))]; if (!c || c == q) c = ' '; }
+		else c = plain_char(r);
+		if (!q && !odd && is_delim(f, c)) c = 'v';
+		b_put(b, c);
 	}
-	/* closing quote, sometimes missing or doubled */
-	if (q && !vf_chance(r, 1, 12)) b_put(b, q);
+	/* closing quote, sometimes missing */
+	if (q && !vf_chance(r, 1, 25)) b_put(b, q);
 }
 static void gen_comment(vf_rng *r, bytes *b, const format *f)
 {
 	int c = f->pf.com[vf_below(r, 4)];
+	if (!c) c = f->pf.com[0];
 	if (!c) return;
 	b_put(b, c);
 	for (int n = vf_range(r, 0, 12); n; n--) b_put(b, vf_chance(r, 1, 6) ? odd_char(r, f) : plain_char(r));
-	if (!vf_chance(r, 1, 10)) b_put(b, '\n');
+	if (!vf_chance(r, 1, 30)) b_put(b, '\n');
 }
-static void gen_items(vf_rng *r, bytes *b, const format *f, int depth, int maxdepth, int *budget, int *longs)
+typedef struct { unsigned sect, opt; int budget, longs, maxdepth; } genctx;
+
+static void gen_items(vf_rng *r, bytes *b, const format *f, genctx *g, int depth)
 {
 	int n = vf_range(r, 0, depth ? 4 : 7);
 	const MPT_STRUCT(parser_format) *pf = &f->pf;
-	while (n-- > 0 && *budget > 0) {
+	while (n-- > 0 && g->budget > 0) {
 		uint32_t sel = vf_below(r, 100);
-		--*budget;
+		--g->budget;
 		gen_ws(r, b);
-		if (sel < 55 || (sel < 85 && depth >= maxdepth)) {
+		if (sel < 55 || (sel < 85 && (depth >= g->maxdepth || f->type == '_'))) {
 			/* option */
 			if (pf->ostart) b_put(b, pf->ostart);
-			gen_name(r, b, f, longs);
-			gen_ws(r, b);
-			if (pf->assign) { if (!vf_chance(r, 1, 15)) b_put(b, pf->assign); }
+			gen_name(r, b, f, g->opt, &g->longs);
+			gen_iws(r, b);
+			if (pf->assign) { if (!vf_chance(r, 1, 40)) b_put(b, pf->assign); }
 			else b_put(b, ' ');
-			if (vf_chance(r, 1, 2)) b_put(b, ' ');
-			gen_value(r, b, f, longs);
-			if (vf_chance(r, 1, 3)) b_put(b, ' ');
-			if (vf_chance(r, 1, 10)) gen_comment(r, b, f);
-			if (pf->oend) { if (!vf_chance(r, 1, 15)) b_put(b, pf->oend); }
+			gen_iws(r, b);
+			gen_value(r, b, f, &g->longs);
+			gen_iws(r, b);
+			if (!pf->oend && vf_chance(r, 1, 10)) { b_put(b, ' '); gen_comment(r, b, f); }
+			if (pf->oend) { if (!vf_chance(r, 1, 40)) b_put(b, pf->oend); }
 			else b_put(b, '\n');
 		} else if (sel < 85) {
 			/* section in the spelling of the family */
 			switch (f->type) {
 			case 'x':
 				b_put(b, pf->sstart);
-				if (vf_chance(r, 1, 4)) b_put(b, ' ');
-				gen_name(r, b, f, longs);
+				gen_iws(r, b);
+				gen_name(r, b, f, g->sect & ~0x8u, &g->longs);
 				b_put(b, vf_chance(r, 1, 2) ? ' ' : '\n');
-				gen_items(r, b, f, depth + 1, maxdepth, budget, longs);
+				gen_items(r, b, f, g, depth + 1);
 				gen_ws(r, b);
-				if (pf->send != pf->sstart ? !vf_chance(r, 1, 12) : vf_chance(r, 1, 4)) b_put(b, pf->send);
+				if (pf->send != pf->sstart ? !vf_chance(r, 1, 30) : vf_chance(r, 1, 10)) b_put(b, pf->send);
 				break;
 			case ' ':
 				b_put(b, pf->sstart);
-				if (vf_chance(r, 1, 4)) b_put(b, ' ');
-				gen_name(r, b, f, longs);
-				if (vf_chance(r, 1, 4)) b_put(b, ' ');
-				if (!vf_chance(r, 1, 12)) b_put(b, pf->send);
+				gen_iws(r, b);
+				gen_name(r, b, f, g->sect, &g->longs);
+				gen_iws(r, b);
+				if (!vf_chance(r, 1, 30)) b_put(b, pf->send);
 				gen_ws(r, b);
-				gen_items(r, b, f, depth + 1, maxdepth, budget, longs);
+				gen_items(r, b, f, g, g->maxdepth);
 				break;
 			default:
-				gen_name(r, b, f, longs);
+				gen_name(r, b, f, g->sect, &g->longs);
 				gen_ws(r, b);
 				b_put(b, pf->sstart);
-				gen_items(r, b, f, depth + 1, maxdepth, budget, longs);
+				gen_items(r, b, f, g, depth + 1);
 				gen_ws(r, b);
-				if (!vf_chance(r, 1, 12)) b_put(b, pf->send);
+				if (!vf_chance(r, 1, 30)) b_put(b, pf->send);
 			}
-		} else if (sel < 92) {
+		} else if (sel < 93) {
 			gen_comment(r, b, f);
 		} else if (sel < 96) {
 			/* data without name */
-			gen_value(r, b, f, longs);
+			if (!(g->opt & 0x10) && !vf_chance(r, 1, 8)) continue;
+			gen_value(r, b, f, &g->longs);
 			if (pf->oend) b_put(b, pf->oend); else b_put(b, '\n');
-		} else if (sel < 98) {
+		} else if (sel < 97) {
 			b_put(b, pf->send);
 		} else {
 			b_put(b, '\n');
 		}
 	}
 }
-static void gen_deep(vf_rng *r, bytes *b, const format *f, int depth, int *longs)
+static void gen_deep(vf_rng *r, bytes *b, const format *f, genctx *g, int depth)
 {
 	const MPT_STRUCT(parser_format) *pf = &f->pf;
-	int budget = 6;
+	g->maxdepth = depth + 1;
 	for (int d = 0; d < depth; d++) {
 		switch (f->type) {
-		case 'x': b_put(b, pf->sstart); gen_name(r, b, f, longs); b_put(b, ' '); break;
-		case ' ': b_put(b, pf->sstart); gen_name(r, b, f, longs); b_put(b, pf->send); break;
-		default:  gen_name(r, b, f, longs); b_put(b, pf->sstart);
+		case 'x': b_put(b, pf->sstart); gen_name(r, b, f, g->sect & ~0x8u, &g->longs); b_put(b, ' '); break;
+		case ' ': b_put(b, pf->sstart); gen_name(r, b, f, g->sect, &g->longs); b_put(b, pf->send); break;
+		default:  gen_name(r, b, f, g->sect, &g->longs); b_put(b, pf->sstart);
 		}
-		if (vf_chance(r, 1, 8)) gen_items(r, b, f, depth, depth, &budget, longs);
+		if (vf_chance(r, 1, 8)) { g->budget = 3; gen_items(r, b, f, g, depth); }
 	}
-	budget = 4;
-	gen_items(r, b, f, depth, depth, &budget, longs);
+	g->budget = 4;
+	gen_items(r, b, f, g, depth);
 	for (int d = vf_chance(r, 1, 6) ? vf_range(r, 0, depth + 2) : depth; d > 0; d--) {
 		gen_ws(r, b);
 		b_put(b, pf->send);
@@ -672,6 +716,7 @@ typedef struct {
 	format f;
 	uint16_t sect, opt;
 	bytes doc;
+	int pristine;                   /* grammar document without mutation */
 	char desc[200];
 } testcase;
 
@@ -687,7 +732,7 @@ static void ctx_setup(MPT_STRUCT(parser_context) *ctx, input *in, const testcase
 }
 static size_t pick_err(vf_rng *r, size_t n)
 {
-	if (!vf_chance(r, 1, 4)) return NONE;
+	if (!vf_chance(r, 1, 6)) return NONE;
 	return vf_below(r, (uint32_t) n + 1);
 }
 static const char *retname(int ret)
@@ -744,6 +789,14 @@ static int drive_config(const testcase *tc, vf_rng *r)
 	VF_CHECK(!memcmp(&pf, &tc->f.pf, sizeof(pf)), "model:parse_config:format-modified", "A %s: parser changed the format description", tc->desc);
 	VF_CHECK(ret <= 0, "model:parse_config:positive-return", "A %s: returned %d", tc->desc, ret);
 	count_ret("A", ret);
+	if (tc->pristine) {
+		switch (tc->f.type) {
+		case '*': vf_count(ret < 0 ? "grammar-doc:prefix:rejected" : "grammar-doc:prefix:accepted", 1); break;
+		case 'x': vf_count(ret < 0 ? "grammar-doc:enclosed:rejected" : "grammar-doc:enclosed:accepted", 1); break;
+		case ' ': vf_count(ret < 0 ? "grammar-doc:separated:rejected" : "grammar-doc:separated:accepted", 1); break;
+		default:  vf_count(ret < 0 ? "grammar-doc:options:rejected" : "grammar-doc:options:accepted", 1);
+		}
+	}
 	rec_verdict(&rec, &tc->f, ret, "A", tc->desc);
 	if (err_at != NONE && in.after_end && ret >= 0) vf_count("outcome:input-error-not-reported", 1);
 	vf_count("events:section", rec.kinds[1]);
@@ -902,7 +955,8 @@ void vf_case(uint64_t idx, vf_rng *r)
 {
 	testcase tc;
 	char fl[16], hx[120];
-	int longs = 0, budget;
+	int longs = 0;
+	genctx g;
 	uint32_t kind;
 
 	memset(&tc, 0, sizeof(tc));
@@ -932,15 +986,19 @@ void vf_case(uint64_t idx, vf_rng *r)
 
 	/* document */
 	kind = vf_below(r, 100);
-	budget = vf_chance(r, 1, 20) ? 200 : 40;
+	g.sect = tc.sect; g.opt = tc.opt;
+	g.budget = vf_chance(r, 1, 20) ? 200 : 40;
+	g.longs = 0;
 	if (kind < 85) {
-		int maxdepth = vf_range(r, 0, 5);
-		if (vf_chance(r, 1, 30)) gen_deep(r, &tc.doc, &tc.f, vf_range(r, 6, 60), &longs);
-		else gen_items(r, &tc.doc, &tc.f, 0, maxdepth, &budget, &longs);
+		g.maxdepth = vf_range(r, 0, 5);
+		if (vf_chance(r, 1, 30)) gen_deep(r, &tc.doc, &tc.f, &g, vf_range(r, 6, 60));
+		else gen_items(r, &tc.doc, &tc.f, &g, 0);
 		if (kind >= 45) mutate(r, &tc.doc, &tc.f);
 	} else {
 		gen_soup(r, &tc.doc, &tc.f);
 	}
+	longs = g.longs;
+	tc.pristine = kind < 45;
 	if (longs) vf_count("doc:with-long-token", 1);
 	vf_count(kind < 45 ? "doc:grammar" : kind < 85 ? "doc:grammar+mutation" : "doc:random-bytes", 1);
 	switch (tc.f.type) {
